@@ -285,6 +285,14 @@ def paired_options(mainf):
 def reader_load_class_order(mainf):
     """classes appended to the reader's `loads` list, in source order"""
     out = []
+    # loads = [Impedance_Load(l) for l in args.load]
+    for n in sorted([x for x in walk_no_nested(mainf.node) if isinstance(x, ast.Assign)], key=lambda c: c.lineno):
+        if len(n.targets) == 1 and norm(n.targets[0]) == 'loads' and isinstance(n.value, (ast.ListComp, ast.List)):
+            elts = [n.value.elt] if isinstance(n.value, ast.ListComp) else n.value.elts
+            for e_ in elts:
+                if isinstance(e_, ast.Call) and isinstance(e_.func, ast.Name) and e_.func.id.endswith('_Load'):
+                    out.append((n.lineno, e_.func.id))
+    out = [c for l, c in sorted(out)]
     for n in sorted([x for x in walk_no_nested(mainf.node) if isinstance(x, ast.Call)],
                     key=lambda c: (c.lineno, c.col_offset)):
         if isinstance(n.func, ast.Attribute) and n.func.attr == 'append' and norm(n.func.value) == 'loads' \
